@@ -104,6 +104,21 @@ prop("C07", "a request completes only on its own acknowledgement", "exploration"
      [dict(tests="^TestVerifC07_AckRouting$", checks_quick=2500, checks_thorough=25000, shards=12),
       dict(tests="^TestVerifC07_AckRouting$", race=True, checks_quick=300, checks_thorough=3000, shards=4)])
 
+prop("C19", "errors keep their cause and their retry handle", "exploration",
+     "chains: rapid-generated error chains, leaf in {every exported sentinel, context.Canceled/DeadlineExceeded, io.EOF, "
+     "io.ErrClosedPipe, fresh error, value-type error} under 0..8 layers from {wrapError, wrapErrorf, wrapErrorWithRetry, "
+     "fmt %w, ConnectionError, opaque fmt %v, RequestTimeoutError, legacy struct with Err field}; oracle = set membership "
+     "known from the construction (reachable through transparent layers => errors.Is true; nowhere in the chain => false; "
+     "hidden nodes don't care), for all sentinels and all nodes as targets, errors.As for RequestTimeoutError, io.EOF/nil pass "
+     "through; retry handles: request kind x (packet index, write failure | link closed | context cancelled) x 1..3 successive "
+     "interruptions on fresh clients: the error implements ErrorWithRetry, errors.Is finds exactly the cause, Retry on a fresh "
+     "client re-issues the same request (strictly decoded) and succeeds when acknowledged. Non-trivial = chain depth >= 2 with "
+     ">= 1 library wrapper / every retry case; distinct = FNV-64 of the case JSON.",
+     [dict(tests="^TestVerifC19_Chains$", checks_quick=30000, checks_thorough=400000, shards=6),
+      dict(tests="^TestVerifC19_Retry$", checks_quick=3000, checks_thorough=30000, shards=8)],
+     assumptions=["error types outside the stated domain (pointer-to-non-struct errors, uncomparable value errors) are not generated",
+                  "nodes hidden behind an opaque layer or reachable only via the reflection fallback are not asserted either way"])
+
 # ---------------------------------------------------------------------------------------------
 # texts for MANIFEST.json (tools/gen_manifest.py)
 
@@ -164,3 +179,9 @@ mtext("C07", "E5 scripted peer with ack script",
       "timeline whose sequence numbers are taken before the ack bytes become readable, so the comparison cannot false-alarm.",
       "sync marker relies on the reader processing packets strictly in order",
       "DESIGN.md section 4 / C07")
+
+mtext("C19", "pure chains + E5 scripted peer",
+      "rapid property tests; oracle = reference reachability set of a constructed error chain / strict decoding of what Retry emits",
+      "Generated chains and interruption sequences; membership oracle is exact for reachable and absent targets. Sampling, no completeness.",
+      "fresh clients are independent in-memory transports",
+      "DESIGN.md section 4 / C19")
